@@ -102,7 +102,7 @@ def judge(res, js, line, real, autopong, sent_pings=None):
             fail('library wrote a Pong although automatic pongs are disabled')
         return
     # a Close *attempt* that failed leaves closing set: pongs after it are legitimately dropped; only compare up to that point
-    if [p for _, p, _ in lib_pongs] != [p for _, p in expected][:len(lib_pongs)] or (len(lib_pongs) < len(expected) and not any(t.startswith('WF:') for t in tk) and 'R:WebSocketClosing' not in tk and not client_closed_attempt(tk)):
+    if [p for _, p, _ in lib_pongs] != [p for _, p in expected][:len(lib_pongs)] or (len(lib_pongs) < len(expected) and not any(t.startswith('WF:') for t in tk) and not client_closed_attempt(tk)):
         return fail('library Pongs %s do not match received Pings %s' % ([p.hex()[:16] for _, p, _ in lib_pongs], [p.hex()[:16] for _, p in expected]))
     for (wi, p, _), (ei, q) in zip(lib_pongs, expected):
         if not wi < ei:
